@@ -63,6 +63,7 @@ type op struct {
 	closedUnder bool
 	quiesce     bool
 	canPark     bool // channel op: blocks by parking (visible to others)
+	site        string // innermost non-shim caller (captured in trace mode only)
 	parked      bool
 }
 
@@ -526,7 +527,42 @@ func (e *Exec) point(t *thread, o *op) {
 	e.pseq++
 	t.pseq = e.pseq
 	t.pending = o
+	if e.tracing {
+		o.site = callerSite()
+	}
 	e.schedule(t, false)
+}
+
+// callerSite: innermost frame outside this package, e.g. "mr.(*onceChan).write".
+func callerSite() string {
+	var pcs [24]uintptr
+	n := runtime.Callers(3, pcs[:])
+	fr := runtime.CallersFrames(pcs[:n])
+	for {
+		f, more := fr.Next()
+		if f.Function != "" && !strings.Contains(f.Function, "/verifshim/vsched.") {
+			fn := f.Function
+			if i := strings.LastIndex(fn, "/"); i >= 0 {
+				fn = fn[i+1:]
+			}
+			if i := strings.Index(fn, "["); i >= 0 { // generic instantiation
+				if j := strings.LastIndex(fn, "]"); j > i {
+					fn = fn[:i] + fn[j+1:]
+				}
+			}
+			return fn
+		}
+		if !more {
+			return ""
+		}
+	}
+}
+
+func (o *op) where() string {
+	if o.site != "" {
+		return o.desc + "@" + o.site
+	}
+	return o.desc
 }
 
 // simple registers an always-enabled op with effect f touching objs.
@@ -607,6 +643,21 @@ func Run(o RunOpts, body func()) *Exec {
 	return e
 }
 
+// Traced reports whether call sites were captured (replay of a failing execution).
+func (e *Exec) Traced() bool { return e.tracing }
+
+// BlockedSites lists "op@site" of the unfinished non-daemon threads (sites only when Traced).
+func (e *Exec) BlockedSites() []string {
+	var out []string
+	for _, t := range e.threads {
+		if !t.done && !t.daemon && t.pending != nil {
+			out = append(out, t.pending.where())
+		}
+	}
+	sort.Strings(out)
+	return out
+}
+
 func (e *Exec) Points() []Point  { return e.points }
 func (e *Exec) Panics() []string { return e.panics }
 func (e *Exec) Log() []string    { return e.log }
@@ -632,7 +683,7 @@ func (e *Exec) Blocked() []string {
 		if !t.done {
 			d := "runnable"
 			if t.pending != nil {
-				d = t.pending.desc
+				d = t.pending.where()
 			}
 			dm := ""
 			if t.daemon {
@@ -651,7 +702,7 @@ func (e *Exec) BlockedKey() string {
 		if !t.done && !t.daemon {
 			d := "runnable"
 			if t.pending != nil {
-				d = t.pending.desc
+				d = t.pending.where()
 			}
 			out = append(out, t.name+":"+d)
 		}
